@@ -790,3 +790,70 @@ func ruleC17TerminationByte(c *Ctx) {
 		return fmt.Sprintf("only %d region-ending tests found", n)
 	}())
 }
+
+func init() { register("C07", ruleC07ExistsFreshRows) }
+
+// loopHeaders: every block that is the target of a back edge.
+func loopHeaders(f *ssa.Function) []*ssa.BasicBlock {
+	var out []*ssa.BasicBlock
+	for _, b := range f.Blocks {
+		for _, p := range b.Preds {
+			if b.Dominates(p) {
+				out = append(out, b)
+				break
+			}
+		}
+	}
+	return out
+}
+
+// ruleC07ExistsFreshRows: each nested row of EXISTS is merged into a map of its own.
+func ruleC07ExistsFreshRows(c *Ctx) {
+	c.Doc("c07.exists-fresh-row", "EXISTS: every element stored into the nested source (from[i] = merged) is a map made inside the loop over the nested rows — one merged row per nested element; a single map re-filled for every element would leave all source rows showing the last element's columns")
+	f := c.theFunc("EXISTS", "*sqlparser.ExistsExpr", "ExistExpr")
+	if f == nil {
+		c.Unknown("c07.exists-fresh-row", "ExistExpr", "-", "anchor lost")
+		return
+	}
+	hs := loopHeaders(f)
+	n := 0
+	var why []string
+	allInstrs(f, func(b *ssa.BasicBlock, in ssa.Instruction) {
+		st, ok := in.(*ssa.Store)
+		if !ok {
+			return
+		}
+		ia, ok := st.Addr.(*ssa.IndexAddr)
+		if !ok || shortType(ia.X.Type()) != "[]any" {
+			return
+		}
+		inLoop := false
+		for _, h := range hs {
+			if inNaturalLoop(h, b) {
+				inLoop = true
+			}
+		}
+		if !inLoop {
+			return
+		}
+		n++
+		v := st.Val
+		if mi, isMI := v.(*ssa.MakeInterface); isMI {
+			v = mi.X
+		}
+		mm, isMM := v.(*ssa.MakeMap)
+		if !isMM {
+			why = append(why, "the element stored at "+c.P.Pos(st.Pos())+" is "+NewTB().Of(v).String()+", not a map made for this element")
+			return
+		}
+		for _, h := range hs {
+			if inNaturalLoop(h, b) && !inNaturalLoop(h, mm.Block()) {
+				why = append(why, "the row stored at "+c.P.Pos(st.Pos())+" is a map made at "+c.P.Pos(mm.Pos())+", outside the loop over the nested rows: every source row is the same object")
+			}
+		}
+	})
+	if n == 0 {
+		why = append(why, "no store of a merged row into the nested source found")
+	}
+	c.Check(len(why) == 0, "c07.exists-fresh-row", c.P.funcKey(f), c.P.Pos(f.Pos()), fmt.Sprintf("%d element stores, each of a map made inside the loop", n), strings.Join(uniq(why), "; "))
+}
